@@ -884,8 +884,10 @@ func c02ColumnClamp(c *Ctx) {
 // ReadString). ReadSlice/ReadLine hand out at most one buffer (4096 bytes):
 // a longer line would be counted as several lines, every later line number
 // drifts past the end of the file and the console reporter indexes out of range.
-func c02WholeLines(c *Ctx) {
-	fi := c.MustFunc("C02-R10", "internal/parser.ContentReader.readNextLine")
+func c02WholeLines(c *Ctx) { c02WholeLinesR(c, "C02-R10") }
+
+func c02WholeLinesR(c *Ctx, R string) {
+	fi := c.MustFunc(R, "internal/parser.ContentReader.readNextLine")
 	if fi == nil {
 		return
 	}
@@ -906,11 +908,11 @@ func c02WholeLines(c *Ctx) {
 		}
 		n++
 		okFn := fn.Name() == "ReadBytes" || fn.Name() == "ReadString"
-		c.Check(okFn, "C02-R10", "readNextLine:line buffer filled by a whole-line read", as.Pos(), "bufio.Reader."+fn.Name(),
+		c.Check(okFn, R, "readNextLine:line buffer filled by a whole-line read", as.Pos(), "bufio.Reader."+fn.Name(),
 			"the line buffer is filled with bufio.Reader."+fn.Name()+", which returns at most one internal buffer: a physical line longer than that is counted as two lines, TotalLines and every later line number drift, and reports point past the end of the file (index out of range in the console reporter)")
 		return true
 	})
-	c.Check(n == 1, "C02-R10", "readNextLine:one bufio read fills the buffer", fi.Decl.Pos(), "one", itoa(n)+" bufio reads into r.buf")
+	c.Check(n == 1, R, "readNextLine:one bufio read fills the buffer", fi.Decl.Pos(), "one", itoa(n)+" bufio reads into r.buf")
 }
 
 // c02SplitIndex: a slice obtained from strings.Split / strings.Fields /
